@@ -14,6 +14,10 @@ Part B (call form x function kind, spec/C08.tla): TLC enumerates the product, th
   cell, TLC judges this / arguments / length / name / new-return against the table in the specification.
 Part C (kind of the this-value x explicit-this call form x function kind, spec/C08.tla): same pipeline as Part B
   (quick: representative sub-grid containing every this-value kind, call form and function kind; thorough: the product).
+Part D (kind of the value a computed key evaluates to x site that turns a key into a property name, spec/C08.tla): same
+  pipeline; a cell is a two-step history (write site x spelling, then a second step) with the whole battery of routes
+  (member read by value / in place / by the canonical string, in, both hasOwnProperty routes, getOwnPropertyDescriptor,
+  keys / values / entries / for-in, the child object) observed after each step.  The canonical name comes from the spec.
 Python never computes an expected value.
 """
 import json, os, random, collections, time
@@ -277,16 +281,23 @@ def part_callforms(rep):
     for i, c in enumerate(cells):
         c["id"] = i
     rep.spaces.append({"space": "call form x function kind, plus new-return rules and constructor chains",
-                       "cases": sum(1 for c in cells if c["form"] != "tv"), "complete": True})
+                       "cases": sum(1 for c in cells if c["form"] not in ("tv", "key")), "complete": True})
     ntv = sum(1 for c in cells if c["form"] == "tv")
     if ntv < 300:
         raise Machinery("this-value enumeration produced only %d cells" % ntv)
     rep.spaces.append({"space": "kind of the this-value x call form taking an explicit this x function kind (%s grid)" % rep.tier,
                        "cases": ntv, "complete": True})
+    nkey = sum(1 for c in cells if c["form"] == "key")
+    if nkey < 300:
+        raise Machinery("key-kind enumeration produced only %d cells" % nkey)
+    rep.spaces.append({"space": "kind of the computed key's value x site that turns a key into a property name "
+                                "(write site x spelling x second step, %s grid), battery of 21 observations after each step" % rep.tier,
+                       "cases": nkey, "complete": True})
+    rep.notes["cells"] = {"call_forms": len(cells) - ntv - nkey, "this_value": ntv, "key_kind": nkey}
     results = engine.run_cases(pid, cells, driver="checks.c08_driver:cell_driver", tag="calleng")
     byid = {c["id"]: c for c in cells}
     dv = sorted(rep.findings)          # the chain cells also meet object-model deviations
-    recs = [{"id": r["id"], "cell": {k: v for k, v in byid[r["id"]].items() if k != "id"}, "obs": r["obs"], "dv": dv}
+    recs = [{"id": r["id"], "cell": {k: byid[r["id"]][k] for k in ("form", "kind", "ret", "via")}, "obs": r["obs"], "dv": dv}
             for r in results]
     verdicts, st, tr, wall = tlc_judge(pid, "C08", recs, CALL_JUDGE_CFG, tag="calljudge",
                                          shards=min(16, max(2, len(recs) // 250)))
@@ -295,7 +306,9 @@ def part_callforms(rep):
         raise Machinery("call-form judge returned %d verdicts for %d cells" % (len(verdicts), len(recs)))
     for v in verdicts:
         c = byid[v["id"]]
-        if c["form"] == "tv":
+        if c["form"] == "key":
+            label = "key kind %s (%s, name %r) written by %s, then %s" % (c["kind"], drv.KEY_EXPR[c["kind"]], c["name"], c["via"], c["ret"])
+        elif c["form"] == "tv":
             label = "this-value %s through %s x kind %s" % (c["ret"], c["via"], c["kind"])
         else:
             label = "call form %s x kind %s%s" % (c["form"], c["kind"], (" return " + c["ret"]) if c.get("ret") else "")
